@@ -11,7 +11,7 @@
 
    JSON validity is Json.valid (= json.Valid, nesting limit included). *)
 From Coq Require Import List NArith ZArith Bool Lia String.
-From JV Require Import Bytes Json JsonProofs JsonPrint Msg Wire WireProofs WireSpecs QStr Query QueryProofs.
+From JV Require Import Bytes Json JsonProofs JsonPrint Msg Wire WireProofs WireSpecs JsonCompact QStr Query QueryProofs.
 Import ListNotations.
 Local Open Scope N_scope.
 
@@ -63,22 +63,21 @@ Definition renders (b : body) (bits : bytes) : Prop :=
   | BOther => True
   end.
 
-(* the error's data, if any, are JSON that fits one container deep (they arrived as the
-   "data" member of the error object of a response record, i.e. two containers deep) *)
-Definition data_fits (e : werr) : Prop :=
-  we_data e = [] \/ exists q, compact (we_data e) = Some q /\ tight_at 1 q = true.
+(* the error's data, if any, are one JSON value that fits one container deep (they arrived as the "data"
+   member of the error object of a response record, i.e. two containers deep: exact value text, Wire.unmarshal_error) *)
+Definition data_fits (e : werr) : Prop := we_data e = [] \/ tight_at 1 (we_data e) = true.
 
-(* what the call results must satisfy for writeJSON's fallback to be unreachable *)
+(* what the call results must satisfy for writeJSON's fallback to be unreachable: results and error data are
+   JSON, other error values marshal *)
 Definition srv_marshals (srv : bytes -> params -> call_result_c) : Prop :=
-  (forall m ps r, srv m ps = CROk r -> exists q, compact r = Some q) /\
-  (forall m ps e, srv m ps = CRErr e -> we_data e = [] \/ exists q, compact (we_data e) = Some q) /\
+  (forall m ps r, srv m ps = CROk r -> valid r = true) /\
+  (forall m ps e, srv m ps = CRErr e -> we_data e = [] \/ valid (we_data e) = true) /\
   (forall m ps o, srv m ps = CRFail o -> o <> None).
 
-(* ... and for the bytes written to be valid JSON: compaction of the result yields JSON (it
-   does for every JSON result: see compact_valid below if present), the error data fit, and
-   json.Marshal of another error value yields JSON (contract of encoding/json) *)
+(* ... and for the bytes written to be valid JSON: the error data fit, and json.Marshal of another error value
+   yields JSON (contract of encoding/json).  Nothing is asked of the results: compaction of JSON is JSON
+   (JsonCompact.compact_valid). *)
 Definition srv_json (srv : bytes -> params -> call_result_c) : Prop :=
-  (forall m ps r q, srv m ps = CROk r -> compact r = Some q -> valid q = true) /\
   (forall m ps e, srv m ps = CRErr e -> data_fits e) /\
   (forall m ps t, srv m ps = CRFail (Some t) -> valid t = true).
 
@@ -89,6 +88,13 @@ Lemma tight_valid s : tight_at 0 s = true -> valid s = true.
 Proof.
   intros H. destruct (tight_PV _ _ H) as [c Hc]. unfold valid. now rewrite (parse_doc_PV _ _ Hc).
 Qed.
+
+Lemma compact_some_valid r : valid r = true -> exists q, compact r = Some q.
+Proof. unfold valid, compact. destruct (parse_doc r) as [[[w c] w1]|]; [eauto|discriminate]. Qed.
+
+Lemma data_fits_compact e : data_fits e ->
+  we_data e = [] \/ exists q, compact (we_data e) = Some q /\ tight_at 1 q = true.
+Proof. intros [H|H]; [now left|right; exact (compact_tight 1 _ H)]. Qed.
 
 (* an error object is one JSON value (no condition on the code) *)
 Lemma marshal_error_tight d e b : N.succ d <= max_depth ->
@@ -115,7 +121,7 @@ Qed.
 
 Lemma marshal_error_valid e b : data_fits e -> Wire.marshal_error e = Some b -> valid b = true.
 Proof.
-  intros Hd Hm. apply tight_valid. apply (marshal_error_tight 0 e b depth_le_1 Hd Hm).
+  intros Hd Hm. apply tight_valid. apply (marshal_error_tight 0 e b depth_le_1 (data_fits_compact e Hd) Hm).
 Qed.
 
 (* a Go string after a trip through json.Marshal / json.Unmarshal: itself when it is UTF-8
@@ -174,10 +180,10 @@ Proof.
   intros (Hr & He & Hf) Hp. unfold getter_reply, write_json. destruct p as [|m ps].
   - destruct (marshal_error_no_data (parse_error_obj perr) eq_refl) as [b ->]. eauto.
   - rewrite Hp. destruct (srv m ps) as [r|e|o'] eqn:E.
-    + destruct (Hr _ _ _ E) as [q ->]. eauto.
+    + destruct (compact_some_valid r (Hr _ _ _ E)) as [q ->]. eauto.
     + destruct (Wire.marshal_error e) as [b|] eqn:Em; [eauto|].
       apply marshal_error_none in Em. destruct Em as [Hne Hc].
-      destruct (He _ _ _ E) as [H|[q H]]; congruence.
+      destruct (He _ _ _ E) as [H|H]; [congruence|]. destruct (compact_some_valid _ H) as [q Hq]. congruence.
     + destruct o' as [t|]; [eauto|]. exfalso. now apply (Hf _ _ _ E).
 Qed.
 
@@ -186,11 +192,11 @@ Lemma getter_reply_valid p perr o srv st bits :
   srv_json srv -> (forall t, o = Some t -> valid t = true) ->
   getter_reply p perr o srv = HJson st bits -> valid bits = true.
 Proof.
-  intros (Hr & He & Hf) Ho. unfold getter_reply, write_json. destruct p as [|m ps].
+  intros (He & Hf) Ho. unfold getter_reply, write_json. destruct p as [|m ps].
   - destruct (parse_error_body perr) as (b & Hb & Hv & _). rewrite Hb. now intros [= <- <-].
   - destruct (params_marshalable ps).
     + destruct (srv m ps) as [r|e|o'] eqn:E.
-      * destruct (compact r) as [q|] eqn:Ec; [|discriminate]. intros [= <- <-]. now apply (Hr _ _ _ _ E).
+      * destruct (compact r) as [q|] eqn:Ec; [|discriminate]. intros [= <- <-]. exact (proj1 (compact_valid _ _ Ec)).
       * destruct (Wire.marshal_error e) as [b|] eqn:Em; [|discriminate]. intros [= <- <-].
         apply (marshal_error_valid e); [now apply (He _ _ _ E)|exact Em].
       * destruct o' as [t|]; [|discriminate]. intros [= <- <-]. now apply (Hf _ _ _ E).
@@ -221,10 +227,10 @@ Proof.
   - pose proof (parse_query_marshalable _ _ _ Ep) as Hpm.
     destruct (getter_reply_no_fallback (PROk m ps) perr o srv Hm Hpm) as (st & bits & Hg).
     revert Hg. unfold getter_reply, write_json. rewrite Hpm.
-    destruct Hj as (Hr & He & Hf).
+    destruct Hj as (He & Hf).
     destruct (srv m ps) as [res|e|t] eqn:E.
     + destruct (compact res) as [q|] eqn:Ec; [|discriminate]. intros _. exists q.
-      split; [reflexivity|]. split; [now apply (Hr _ _ _ _ E)|reflexivity].
+      split; [reflexivity|]. split; [exact (proj1 (compact_valid _ _ Ec))|reflexivity].
     + destruct (Wire.marshal_error e) as [b|] eqn:Em; [|discriminate]. intros _. exists b.
       split; [reflexivity|]. split; [|reflexivity]. apply (marshal_error_valid e); [now apply (He _ _ _ E)|exact Em].
     + destruct t as [t|]; [|discriminate]. intros _. exists t.
@@ -262,17 +268,15 @@ Proof. vm_compute. repeat split. Qed.
 Example srv_json_nonvacuous : srv_json ex_srv_c /\ srv_marshals ex_srv_c.
 Proof.
   unfold srv_json, srv_marshals, ex_srv_c. repeat split.
-  - intros m ps r q H. destruct (beq m ex_m_ok); [|destruct (beq m ex_m_err); [|destruct (beq m ex_m_fail)]]; try discriminate.
-    injection H as <-. vm_compute. intros [= <-]. reflexivity.
   - intros m ps e H. destruct (beq m ex_m_ok); [discriminate|]. destruct (beq m ex_m_err).
-    + injection H as <-. right. eexists. split; vm_compute; reflexivity.
+    + injection H as <-. right. vm_compute. reflexivity.
     + destruct (beq m ex_m_fail); [discriminate|]. injection H as <-. now left.
   - intros m ps t H. destruct (beq m ex_m_ok); [|destruct (beq m ex_m_err); [|destruct (beq m ex_m_fail)]]; try discriminate.
     injection H as <-. reflexivity.
   - intros m ps r H. destruct (beq m ex_m_ok); [|destruct (beq m ex_m_err); [|destruct (beq m ex_m_fail)]]; try discriminate.
-    injection H as <-. eexists. vm_compute. reflexivity.
+    injection H as <-. vm_compute. reflexivity.
   - intros m ps e H. destruct (beq m ex_m_ok); [discriminate|]. destruct (beq m ex_m_err).
-    + injection H as <-. right. eexists. vm_compute; reflexivity.
+    + injection H as <-. right. vm_compute; reflexivity.
     + destruct (beq m ex_m_fail); [discriminate|]. injection H as <-. now left.
   - intros m ps o H. destruct (beq m ex_m_ok); [|destruct (beq m ex_m_err); [|destruct (beq m ex_m_fail)]]; try discriminate.
     injection H as <-. discriminate.
